@@ -33,10 +33,17 @@ RULE = ("cases come from random.Random(VERIF_SEED). runs: count tensors of order
         "ones with an empty slice, an all-zero fibre, a single non-zero; stored dense and sparse (sorted / "
         "shuffled); ranks 1..3; guesses uniform in [0.1,1] with exact zeros, all-zero rows, zero and non-unit "
         "weights; the three algorithms; iteration limits 1..3 from one start; inner limits 1..10; stoptol 1e-2 / "
-        "1e-4 / 1e-6; precompinds and inexact on/off; lbfgsMem 1..5; every run is made with printitn 0 (reference, replayed by the "
+        "1e-4 / 1e-6; precompinds and inexact on/off; lbfgsMem 1..5; epsActive 1e-8 (default) .. 10 and mu0 1e-5 (default) .. 10 "
+        "(options of the direction services); every run is made with printitn 0 (reference, replayed by the "
         "model) and again with printitn 1 (the default), 2 and 3 with stdout / logging captured. steps: the helpers of cp_apr.py "
         "and the ktensor normalisations on random non-negative models with zeros. validation: valid and malformed "
-        "requests with small exact values. formulas: every generated scalar definition of Generated/CpAprFormulas.lean "
+        "requests with small exact values, every kind under every printing interval; guesses with one or two surplus rows or "
+        "a missing row in the first / a middle / the last mode ENUMERATED over algorithm x dense / sparse, silent, 1 or 3 outer "
+        "iterations; whatever is returned must have the data's shape and the requested rank. longruns: Poisson counts "
+        "(constant rate 0.5 / 3 / 15 or planted) of order 2..3 with extents 2..5, rank 1..3, strictly positive guesses (3 of 4) "
+        "or guesses with zero rows / entries / weights, 5 / 10 / 25 outer iterations, inner limits 5 / 10 / 20, stoptol 1e-4 / "
+        "1e-6 / 1e-7 and the option space above; each on the dense and on the shuffled sparse storage of the same counts, sparse "
+        "with precompinds on AND off (pdnr / pqnr); no model run. formulas: every generated scalar definition of Generated/CpAprFormulas.lean "
         "on points mixing 0, +-1, 1/2, quarters, tiny and random values (counts and positive model values for the "
         "log-likelihood terms), against the Python expression the translator read. A case is non-trivial when the implementation returns a model after at "
         "least one outer iteration (runs), the compared arrays are non-empty (steps), or the request is accepted "
@@ -50,14 +57,27 @@ ASSUMPTIONS = [
     "row objective) -- or which agrees with the model only to 1e-5 with identical decision fields -- is instead "
     "validated one line search at a time, each from the implementation's own recorded state (tags "
     "rounding-tie / amplified-rounding); the implementation itself changes its answer by up to 1e-5 under a "
-    "1-ulp change of the guess in such runs",
+    "1-ulp change of the guess in such runs. A MU run in which some KKT value the implementation compared with "
+    "stoptol lies within relative 1e-9 of it (recorded at vectorize_for_mu; systematic when stoptol equals kappa, "
+    "the amount the fix-up adds to an entry) and which then disagrees with the model is accepted on the property "
+    "recomputed with numpy alone (tag rounding-tie)",
     "the search direction of PDNR / PQNR (get_search_dir_pdnr with its damping parameter, the L-BFGS bookkeeping "
     "and get_search_dir_pqnr) is a service: the theorems hold for every vector, the harness feeds the model the "
     "vectors the implementation used",
     "np.argsort of the final weights is a service returning a permutation; ties are compared up to the order of "
     "the tied components",
     "wall-clock stoptime, fnEvals / fnVals / nZeros / times and init='random' are not modelled; "
-    "precompinds only selects how the same index sets are computed",
+    "precompinds only selects how the same index sets are computed -- CHECKED on the implementation by the family "
+    "longruns: on sparse data the runs with precompinds on and off return bitwise the same",
+    "a call that RAISES is judged by the argument checks alone (driver op c11_validate_float on the very request): the "
+    "model's run is scripted with the directions the implementation used before it raised and cannot return when the "
+    "script ends early, so its not returning says nothing. A request the checks accept must be answered with a model "
+    "(runs, validation, longruns); the only listed exception is the fatal L-BFGS assertion of pqnr, and only where "
+    "the slot bookkeeping of the L-BFGS memory, replayed in the harness on the iterates the implementation itself "
+    "produced for that row (pairs from the recorded line searches, gradients recomputed with numpy), is fatal at the "
+    "same pair; raised elsewhere it is reported as a violation of its own",
+    "epsActive and mu0 enter only the direction services (get_search_dir_pdnr / _pqnr and the damping update); they "
+    "are passed to the implementation and do not appear in the model's configuration",
     "the model has no printing branch: what cp_apr returns (model, obj, kktViolations, nInnerIters, nViolations, "
     "iteration count) must not depend on printitn. This is CHECKED on the implementation for every run: the "
     "call is repeated with printitn 1, 2, 3 (output captured), must return / raise alike, satisfy the property "
@@ -217,9 +237,10 @@ def kwargs_of(case, printitn=0):
     if alg == "mu":
         kw.update(kappa=o["kappa"], kappatol=o["kappatol"])
     elif alg == "pdnr":
-        kw.update(precompinds=o["precompinds"], inexact=o["inexact"])
+        kw.update(precompinds=o["precompinds"], inexact=o["inexact"], epsActive=o.get("epsActive", 1e-8),
+                  mu0=o.get("mu0", 1e-5))
     else:
-        kw.update(precompinds=o["precompinds"], lbfgsMem=o["lbfgsMem"])
+        kw.update(precompinds=o["precompinds"], lbfgsMem=o["lbfgsMem"], epsActive=o.get("epsActive", 1e-8))
     return kw
 
 
@@ -265,9 +286,22 @@ TIE = 1e-9
 
 
 @contextlib.contextmanager
-def recording(alg, rec, calls=None):
+def recording(alg, rec, calls=None, margins=True, stoptol=None):
     orig = C.tt_linesearch_prowsubprob
+    orig_vec = C.vectorize_for_mu
     primed = set()
+
+    def wrap_vec(matrix):
+        # MU compares `max |min(A, 1 - Phi)|` with stoptol after every update: the relative distance of that value
+        # from stoptol is the margin of the decision (the bump adds kappa to an entry, so stoptol == kappa puts KKT
+        # values within an ulp of the threshold by construction)
+        r = orig_vec(matrix)
+        if calls is not None and stoptol:
+            with np.errstate(all="ignore"):
+                v = float(np.max(np.abs(r))) if np.size(r) else 0.0
+            calls.append({"key": None, "mu": True, "margin": abs(v - stoptol) / stoptol if math.isfinite(v) else math.inf,
+                          "fallback": False, "evals": 0, "bcast": False})
+        return r
 
     def wrap(direction, grad, model_old, step_len, step_red, max_steps, suff_decr, isSparse, data_row, Pi,
              phi_row, display_warning):
@@ -277,30 +311,39 @@ def recording(alg, rec, calls=None):
         R = int(m_old.shape[0])
         d = np.asarray(direction, dtype=float)
         d = np.full(R, float(d)) if d.ndim == 0 else np.array(np.broadcast_to(d.reshape(-1), (R,)))
-        if alg == "pqnr" and key[3] == 0 and key not in primed:
+        prime = alg == "pqnr" and key[3] == 0 and key not in primed
+        if prime:
             primed.add(key)  # the gradient step that primes L-BFGS: the model computes it itself
         else:
             rec.append({"it": key[0], "n": key[1], "jj": key[2], "i": key[3], "d": bd(d.tolist())})
+        if calls is not None:
+            # noted BEFORE the call returns: a call that raises is still the last one of its row
+            calls.append({"key": key, "prime": prime, "sparse": bool(isSparse),
+                          "bcast": bool(np.asarray(direction).size != R),
+                          "x": np.array(data_row, dtype=float).reshape(-1).tolist(),
+                          "Pi": np.array(Pi, dtype=float).tolist(), "m": m_old.tolist(), "d": d.tolist(),
+                          "grad": np.array(grad, dtype=float).reshape(-1).tolist(),
+                          "phi": np.array(phi_row, dtype=float).reshape(-1).tolist(), "out": None,
+                          "margin": math.inf, "evals": 0, "fallback": False})
         res = orig(direction, grad, model_old, step_len, step_red, max_steps, suff_decr, isSparse, data_row, Pi,
                    phi_row, display_warning)
         if calls is not None:
-            calls.append({"margin": ls_margin(d, grad, m_old, isSparse, data_row, Pi),
-                          "sparse": bool(isSparse), "x": np.array(data_row, dtype=float).reshape(-1).tolist(),
-                          "Pi": np.array(Pi, dtype=float).tolist(), "m": m_old.tolist(), "d": d.tolist(),
-                          "grad": np.array(grad, dtype=float).reshape(-1).tolist(),
-                          "phi": np.array(phi_row, dtype=float).reshape(-1).tolist(),
-                          "out": np.array(res[0], dtype=float).reshape(-1).tolist(),
-                          "evals": int(res[4]),
-                          "fallback": bool(np.array_equal(
-                              np.array(res[0], dtype=float).reshape(-1),
-                              (lambda t: t * (t > 0))(m_old * np.array(phi_row, dtype=float).reshape(-1))))})
+            calls[-1].update({"margin": ls_margin(d, grad, m_old, isSparse, data_row, Pi) if margins else math.inf,
+                              "out": np.array(res[0], dtype=float).reshape(-1).tolist(),
+                              "evals": int(res[4]),
+                              "fallback": bool(np.array_equal(
+                                  np.array(res[0], dtype=float).reshape(-1),
+                                  (lambda t: t * (t > 0))(m_old * np.array(phi_row, dtype=float).reshape(-1))))})
         return res
 
     C.tt_linesearch_prowsubprob = wrap
+    if alg == "mu":
+        C.vectorize_for_mu = wrap_vec
     try:
         yield
     finally:
         C.tt_linesearch_prowsubprob = orig
+        C.vectorize_for_mu = orig_vec
 
 
 @contextlib.contextmanager
@@ -351,7 +394,75 @@ def safeguard_watch(flags):
         C.calculate_phi, C.calc_partials, C.calc_grad, ttb.ktensor.normalize = o_phi, o_par, o_grad, o_norm
 
 
-def run_impl(case, maxiters, printitn=0, record=True, flags=None):
+def row_grad_np(x, Pi, m, eps):
+    """Gradient of the row objective `sum(m) - sum_j x_j log (m . Pi_j)` with the code's clamp of the
+    denominators: `1 - (x / max(m Pi^T, eps)) Pi`, plain numpy."""
+    x = np.asarray(x, dtype=float).reshape(-1)
+    Pi = np.asarray(Pi, dtype=float).reshape(len(x), -1)
+    m = np.asarray(m, dtype=float).reshape(-1)
+    with np.errstate(all="ignore"):
+        return 1.0 - (x / np.maximum(m.dot(Pi.T), eps)).dot(Pi)
+
+
+def lbfgs_reference(row_calls, mem, eps):
+    """The slot bookkeeping of PQNR's L-BFGS memory as the finding F11-pqnr-lbfgs-assert describes it,
+    replayed on the iterates the implementation itself produced for ONE row (`row_calls`: the recorded line
+    searches of the row in order -- the priming gradient step, then one per inner iteration): pair `i` is
+    `(m_{i+1} - m_i, g(m_{i+1}) - g(m_i))`; a pair with a non-zero inner product is stored at the current
+    slot, a degenerate one rolls the slot back (to the last slot if that holds a positive curvature, and
+    is FATAL at slot 0 otherwise); then the slot advances by one modulo the memory size.
+    -> index of the pair at which the bookkeeping is fatal, or None."""
+    pos, rho = 0, [0.0] * mem
+    for idx, c in enumerate(row_calls):
+        if c["out"] is None:
+            return None
+        m_new, m_old = np.array(c["out"], dtype=float), np.array(c["m"], dtype=float)
+        with np.errstate(all="ignore"):
+            dot = float((m_new - m_old).dot(row_grad_np(c["x"], c["Pi"], m_new, eps)
+                                            - np.array(c["grad"], dtype=float)))
+        if dot != 0:
+            with np.errstate(all="ignore"):
+                rho[pos] = 1.0 / dot
+        elif pos == 0:
+            if rho[mem - 1] > 0:
+                pos = mem - 1
+            else:
+                return idx
+        else:
+            pos -= 1
+        pos = (pos + 1) % mem
+    return None
+
+
+def raised_verdict(case, res, calls, tags, where=""):
+    """Verdict for a call of cp_apr that RAISED on an admissible request (non-negative data with a stored
+    entry and >= 2 modes if dense, a non-negative guess of the data's shape and the requested rank, positive
+    limits): the property promises a model, so this is a violation whatever the exception.  The fatal
+    L-BFGS assertion of pqnr is the recorded finding F11-pqnr-lbfgs-assert ONLY where the reference
+    bookkeeping, run on the iterates of the row in which it was raised, is fatal at the same pair; raised
+    anywhere else it is reported under a different text (which the matcher of the finding does not accept)."""
+    msg = res.get("msg", "")
+    if case.get("alg") == "pqnr" and LBFGS_MSG in msg:
+        row = []
+        if calls:
+            k3 = calls[-1]["key"][:3]
+            row = [c for c in calls if c["key"][:3] == k3]
+        mem = int(case.get("opts", {}).get("lbfgsMem", 3))
+        eps = float(case.get("opts", {}).get("epsDivZero", 1e-10))
+        at = lbfgs_reference(row, mem, eps) if row else None
+        if row and at == len(row) - 1:
+            return Verdict("violation", f"pqnr raised instead of returning: {msg}{where}", res, None, None,
+                           list(tags) + ["lbfgs-assert"], False)
+        said = "is never fatal" if at is None else f"is fatal at pair {at}"
+        return Verdict("violation", f"pqnr hit its fatal L-BFGS assertion ({msg}){where} at pair {len(row) - 1} of row "
+                       f"{list(calls[-1]['key'][:3]) if calls else '?'} (outer iteration, mode, row), where the slot "
+                       f"bookkeeping replayed on the row's own iterates (memory {mem}) {said}", res, None,
+                       {"pairs": len(row), "reference_fatal_at": at}, list(tags) + ["lbfgs-assert-unjustified"], False)
+    return Verdict("violation", f"implementation raised {res.get('exc')}: {msg} on an admissible request (the "
+                   f"argument checks accept it){where}", res, None, None, list(tags) + ["raised"], False)
+
+
+def run_impl(case, maxiters, printitn=0, record=True, flags=None, margins=True):
     data = mk_data(case["data"])
     guess = mk_kt(case["init"])
     before = (snapshot(data), snapshot(guess))
@@ -359,7 +470,8 @@ def run_impl(case, maxiters, printitn=0, record=True, flags=None):
     if flags is not None and case["alg"] != "mu" and \
             any(np.any(np.sum(np.asarray(f), axis=1) == 0) for f in guess.factor_matrices):
         flags["zero_row"] = True
-    with (recording(case["alg"], rec, calls) if record else contextlib.nullcontext()), \
+    with (recording(case["alg"], rec, calls, margins, case["opts"]["stoptol"]) if record
+          else contextlib.nullcontext()), \
             (safeguard_watch(flags) if flags is not None else contextlib.nullcontext()), quiet():
         res = call(lambda: ttb.cp_apr(data, case["rank"], algorithm=case["alg"], init=guess, maxiters=maxiters,
                                       **kwargs_of(case, printitn)))
@@ -592,10 +704,19 @@ def gen_guess(rng, shape, R):
     return {"weights": bd(w.tolist()), "factors": [bd(f.tolist()) for f in fm]}, tags
 
 
+EPS_ACTIVE = [1e-8, 1e-8, 1e-3, 1e-2, 1.0, 10.0]   # 1e-8 is the default; large values make almost every variable "active"
+MU0 = [1e-5, 1e-5, 1e-2, 1.0, 10.0]                  # 1e-5 is the default
+
+
 def gen_opts(rng):
-    return {"stoptol": rng.choice([1e-4, 1e-4, 1e-2, 1e-6]), "maxinneriters": rng.randint(1, 10),
-            "epsDivZero": 1e-10, "kappa": rng.choice([0.01, 0.01, 0.1]), "kappatol": 1e-10,
-            "precompinds": rng.random() < 0.5, "inexact": rng.random() < 0.5, "lbfgsMem": rng.randint(1, 5)}
+    o = {"stoptol": rng.choice([1e-4, 1e-4, 1e-2, 1e-6]), "maxinneriters": rng.randint(1, 10),
+         "epsDivZero": 1e-10, "kappa": rng.choice([0.01, 0.01, 0.1]), "kappatol": 1e-10,
+         "precompinds": rng.random() < 0.5, "inexact": rng.random() < 0.5, "lbfgsMem": rng.randint(1, 5)}
+    # options of the direction services only (the model takes the directions as given): the active-set
+    # tolerance of pdnr / pqnr and the initial damping of pdnr
+    o["epsActive"] = rng.choice(EPS_ACTIVE)
+    o["mu0"] = rng.choice(MU0)
+    return o
 
 
 class Runs(Family):
@@ -633,9 +754,13 @@ class Runs(Family):
                              "cfg": cfg_j(c, k), "dirs": rec})
                 where.append((ci, len(runs) - 1))
             impl.append(runs)
-        models = drive(reqs)
+        raised = [q for q, (ci, ri) in zip(reqs, where) if "ok" not in impl[ci][ri][1]]
+        models = drive(reqs + [{**q, "op": "c11_validate_float"} for q in raised])
+        admissible = iter(models[len(reqs):])
         per_case = [[] for _ in cases]
-        for (ci, _), m in zip(where, models):
+        for (ci, ri), m in zip(where, models[:len(reqs)]):
+            if "ok" not in impl[ci][ri][1]:
+                m = {**m, "admissible": bool(next(admissible).get("accept"))}
             per_case[ci].append(m)
         out = [self.judge(c, runs, ms) for c, runs, ms in zip(cases, impl, per_case)]
         # second phase: runs whose line searches were decided at rounding level are validated one
@@ -690,13 +815,11 @@ class Runs(Family):
                     return Verdict("violation", f"maxiters={k} printitn={p}: {what}", pres["ok"], None, res["ok"],
                                    tags + [f"printitn{p}"])
             if "ok" not in res:
-                msg = res.get("msg", "")
-                if c["alg"] == "pqnr" and LBFGS_MSG in msg:
-                    return Verdict("violation", f"pqnr raised instead of returning: {msg} (maxiters={k})",
-                                   res, m, None, tags + ["lbfgs-assert"], False)
-                if "ok" in m:
-                    return Verdict("violation", f"implementation raised {res.get('exc')}: {msg} on a valid "
-                                   f"request the model answers (maxiters={k})", res, None, None, tags, False)
+                # NOT decided by whether the model's run returns: its direction service is scripted with what the
+                # implementation used before it raised, so the model's run stops where the script ends.  Decided by
+                # the argument checks alone: an admissible request must be answered with a model
+                if "ok" in m or m.get("admissible"):
+                    return raised_verdict(c, res, calls, tags, f" (maxiters={k})")
                 return Verdict("ok", "", res, m, None, tags + ["reject"], False)
             r = res["ok"]
             what = property_violation(c, k, r, untouched)
@@ -720,7 +843,9 @@ class Runs(Family):
                 if not tie and not amplified:
                     return v
                 if pending is None:
-                    firm = [cl for cl in calls if cl["margin"] >= TIE]
+                    # (a MU run with a KKT value within 1e-9 of stoptol has no line searches to validate: accepted
+                    # on the strength of the property recomputed above and tagged)
+                    firm = [cl for cl in calls if cl["margin"] >= TIE and not cl.get("mu")]
                     pending = (v, firm[:80], tags, "rounding-tie" if tie else "amplified-rounding")
             # likelihood never decreases from one outer iteration to the next (and from the guess to the
             # first) on runs whose safeguards were all inactive: C11_likelihood_monotone_mu / _pdnr / _pqnr
@@ -754,6 +879,10 @@ class Runs(Family):
             tags.append("has-tie-call")
         if any(cl["fallback"] for cl in allcalls):
             tags.append("ls-fallback")
+        if any(cl.get("bcast") for cl in allcalls):
+            # the line search was handed fewer numbers than the row has unknowns and numpy broadcast them (the model is
+            # fed the broadcast vector: the property holds for every direction); shown in the input distribution only
+            tags.append("broadcast-direction")
         if any(cl["evals"] > 2 for cl in allcalls):
             tags.append("ls-backtracked")
         if any(v > 0 for v in last_ok["nViol"]):
@@ -972,60 +1101,84 @@ class Validation(Family):
     name = "validation"
     theorems = ("C11_rejects_invalid", "C11_rejects_negative_data", "C11_rejects_negative_guess")
 
+    MUTS = ["valid", "valid", "valid", "neg-data", "rank0", "rank-mismatch", "ndims-mismatch", "size-mismatch",
+            "neg-entry", "neg-weight", "one-way-dense", "one-way-sparse", "empty-sparse", "maxiters0",
+            "maxinner0", "bad-alg"]
+
     def gen(self, rng, tier):
         n = 112 if tier == "quick" else 640
-        out = []
-        muts = ["valid", "valid", "valid", "neg-data", "rank0", "rank-mismatch", "ndims-mismatch", "size-mismatch",
-                "neg-entry", "neg-weight", "one-way-dense", "one-way-sparse", "empty-sparse", "maxiters0",
-                "maxinner0", "bad-alg"]
-        for k in range(n):
-            mut = muts[k % len(muts)]
-            N = rng.choice([2, 3])
-            shape = [rng.randint(1, 3) for _ in range(N)]
-            if mut.startswith("one-way"):
-                shape = [rng.randint(2, 4)]
-            R = rng.randint(1, 2)
-            numel = int(np.prod(shape))
-            vals = [rng.choice([0, 1, 1, 2, 3]) for _ in range(numel)]
-            if not any(vals):
-                vals[rng.randrange(numel)] = 2
-            sparse = rng.random() < 0.5
-            if mut == "one-way-dense":
-                sparse = False
-            if mut in ("one-way-sparse", "empty-sparse"):
-                sparse = True
-            if mut == "neg-data":
-                vals[rng.randrange(numel)] = -rng.randint(1, 3)
-            w = [rng.choice([1, 1, 2]) for _ in range(R)]
-            fm = [[[rng.choice([0, 1, 1, 2]) for _ in range(R)] for _ in range(s)] for s in shape]
-            alg = rng.choice(ALGS)
-            c = {"mut": mut, "alg": alg, "shape": shape, "vals": vals, "sparse": sparse, "rank": R,
-                 "weights": w, "factors": fm, "maxiters": 1, "maxinner": rng.randint(1, 3),
-                 "printitn": k % 4}
-            if mut == "rank0":
-                c["rank"] = 0
-            elif mut == "rank-mismatch":
-                c["rank"] = R + 1
-            elif mut == "ndims-mismatch":
-                c["factors"] = fm[:-1] if rng.random() < 0.5 else fm + [[[1] * R]]
-            elif mut == "size-mismatch":
-                j = rng.randrange(N)
-                c["factors"][j] = fm[j] + [[1] * R]
-            elif mut == "neg-entry":
-                j = rng.randrange(N)
-                c["factors"][j][rng.randrange(shape[j])][rng.randrange(R)] = -1
-            elif mut == "neg-weight":
-                c["weights"][rng.randrange(R)] = -1
-            elif mut == "empty-sparse":
-                c["vals"] = [0] * numel
-            elif mut == "maxiters0":
-                c["maxiters"] = 0
-            elif mut == "maxinner0":
-                c["maxinner"] = 0
-            elif mut == "bad-alg":
-                c["alg"] = rng.choice(["als", "MU2", ""])
-            out.append(c)
+        # every kind of request meets every printing interval (the final report of a printing run does work of its
+        # own -- norm, innerprod -- that can refuse what the solver let through)
+        out = [self.one(rng, self.MUTS[k % len(self.MUTS)], (k + k // len(self.MUTS)) % 4) for k in range(n)]
+        # guesses whose extent differs from the data's in one mode, ENUMERATED over algorithm x representation x
+        # larger / smaller x first / last mode, silent (so nothing but the argument check and the solver decide), with
+        # one and with several outer iterations: the solvers index the guess by the data (a guess with surplus rows
+        # fits every subscript of sparse data), so only the argument check stands between such a request and a model
+        # of the wrong shape
+        for rep in range(1 if tier == "quick" else 4):
+            for alg in ALGS:
+                for sparse in (False, True):
+                    for how in ("larger", "smaller", "larger2"):
+                        for mode in ("first", "last", "mid"):
+                            c = self.one(rng, "size-mismatch", 0, alg=alg, sparse=sparse, how=how, mode=mode,
+                                         lo=2, N=3 if mode == "mid" else None)
+                            c["maxiters"] = rng.choice([1, 3])
+                            out.append(c)
         return out
+
+    def one(self, rng, mut, printitn, alg=None, sparse=None, how=None, mode=None, lo=1, N=None):
+        N = N or rng.choice([2, 3])
+        shape = [rng.randint(lo, 3) for _ in range(N)]
+        if mut.startswith("one-way"):
+            shape = [rng.randint(2, 4)]
+        R = rng.randint(1, 2)
+        numel = int(np.prod(shape))
+        vals = [rng.choice([0, 1, 1, 2, 3]) for _ in range(numel)]
+        if not any(vals):
+            vals[rng.randrange(numel)] = 2
+        if sparse is None:
+            sparse = rng.random() < 0.5
+        if mut == "one-way-dense":
+            sparse = False
+        if mut in ("one-way-sparse", "empty-sparse"):
+            sparse = True
+        if mut == "neg-data":
+            vals[rng.randrange(numel)] = -rng.randint(1, 3)
+        w = [rng.choice([1, 1, 2]) for _ in range(R)]
+        fm = [[[rng.choice([0, 1, 1, 2]) for _ in range(R)] for _ in range(s)] for s in shape]
+        c = {"mut": mut, "alg": alg or rng.choice(ALGS), "shape": shape, "vals": vals, "sparse": sparse, "rank": R,
+             "weights": w, "factors": fm, "maxiters": 1, "maxinner": rng.randint(1, 3),
+             "printitn": printitn}
+        if mut == "rank0":
+            c["rank"] = 0
+        elif mut == "rank-mismatch":
+            c["rank"] = R + 1
+        elif mut == "ndims-mismatch":
+            c["factors"] = fm[:-1] if rng.random() < 0.5 else fm + [[[1] * R]]
+        elif mut == "size-mismatch":
+            j = {"first": 0, "last": N - 1, "mid": N // 2}.get(mode, rng.randrange(N))
+            how = how or rng.choice(["larger", "larger", "larger2", "smaller"])
+            if how == "smaller" and shape[j] < 2:
+                how = "larger"
+            if how == "smaller":
+                c["factors"][j] = fm[j][:-1]
+            else:
+                c["factors"][j] = fm[j] + [[rng.choice([1, 2]) for _ in range(R)] for _ in range(1 if how == "larger" else 2)]
+            c["how"] = how
+        elif mut == "neg-entry":
+            j = rng.randrange(N)
+            c["factors"][j][rng.randrange(shape[j])][rng.randrange(R)] = -1
+        elif mut == "neg-weight":
+            c["weights"][rng.randrange(R)] = -1
+        elif mut == "empty-sparse":
+            c["vals"] = [0] * numel
+        elif mut == "maxiters0":
+            c["maxiters"] = 0
+        elif mut == "maxinner0":
+            c["maxinner"] = 0
+        elif mut == "bad-alg":
+            c["alg"] = rng.choice(["als", "MU2", ""])
+        return c
 
     @staticmethod
     def build(c):
@@ -1042,18 +1195,25 @@ class Validation(Family):
         return data, dj
 
     def evaluate(self, cases):
-        impls, reqs = [], []
+        impls, reqs, recs = [], [], []
         for c in cases:
             def f(c=c):
                 data, _ = self.build(c)
                 R = len(c["weights"])
                 g = ttb.ktensor([np.array(x, dtype=float).reshape(len(x), R) for x in c["factors"]],
                                 np.array(c["weights"], dtype=float))
-                ttb.cp_apr(data, c["rank"], algorithm=c["alg"], init=g, maxiters=c["maxiters"],
-                           maxinneriters=c["maxinner"], printitn=c.get("printitn", 0))
-                return True
-            with quiet():
+                M, _, _ = ttb.cp_apr(data, c["rank"], algorithm=c["alg"], init=g, maxiters=c["maxiters"],
+                                     maxinneriters=c["maxinner"], printitn=c.get("printitn", 0))
+                return {"shape": [int(np.asarray(x).shape[0]) for x in M.factor_matrices],
+                        "ranks": sorted({int(np.asarray(x).shape[1]) for x in M.factor_matrices}
+                                        | {int(np.asarray(M.weights).size)}),
+                        "nonneg": bool(np.all(np.asarray(M.weights) >= 0)
+                                       and all(np.all(np.asarray(x) >= 0) for x in M.factor_matrices))}
+            calls = []
+            with (recording("pqnr", [], calls, margins=False) if c["alg"] == "pqnr" else contextlib.nullcontext()), \
+                    quiet():
                 impls.append(call(f))
+            recs.append(calls)
             _, dj = self.build(c)
             reqs.append({"op": "c11_validate", "alg": c["alg"], "data": dj,
                          "init": {"weights": c["weights"], "factors": c["factors"]},
@@ -1062,31 +1222,140 @@ class Validation(Family):
                                  "kappatol": "1/10000000000", "inexact": True}})
         models = drive(reqs)
         out = []
-        for c, i, m in zip(cases, impls, models):
+        for c, i, m, calls in zip(cases, impls, models, recs):
             tags = [c["mut"], c["alg"] if c["alg"] in ALGS else "bad-alg", "sparse" if c["sparse"] else "dense",
-                    f"printitn{c.get('printitn', 0)}"]
+                    f"printitn{c.get('printitn', 0)}"] + ([c["how"]] if "how" in c else [])
             acc_i = "ok" in i
             acc_m = bool(m["accept"])
             valid_but = c["mut"] in ("one-way-dense", "empty-sparse") and not acc_i and not acc_m
-            if valid_but:
+            # the property's own clause on whatever is returned: a model of the DATA's shape and the requested rank,
+            # non-negative (independent of the model's verdict on the request)
+            wrong = ""
+            if acc_i:
+                r = i["ok"]
+                if r["shape"] != list(c["shape"]) or r["ranks"] != [c["rank"]]:
+                    wrong = (f"cp_apr returned a model of shape {r['shape']} with {r['ranks']} components for data of "
+                             f"shape {c['shape']} and requested rank {c['rank']} (guess of shape "
+                             f"{[len(x) for x in c['factors']]}, {len(c['weights'])} components)")
+                elif not r["nonneg"]:
+                    wrong = "cp_apr returned a model with a negative (or NaN) weight or factor entry"
+            if wrong:
+                out.append(Verdict("violation", wrong, i, m, None, tags + ["wrong-shape"], False))
+            elif valid_but:
                 # a count tensor the property covers; implementation (and the model that mirrors it) refuse it
                 kind = "a 1-way dense count tensor" if c["mut"] == "one-way-dense" else \
                     "a sparse count tensor without stored entry"
                 out.append(Verdict("violation", f"cp_apr raised {i.get('exc')} on {kind}: {i.get('msg')}", i, m, None,
                                    tags + ["reject"], False))
-            elif not acc_i and c["alg"] == "pqnr" and LBFGS_MSG in i.get("msg", "") and acc_m:
-                out.append(Verdict("violation", f"pqnr raised instead of returning: {i.get('msg')}", i, m, None,
-                                   tags + ["lbfgs-assert"], False))
-            elif acc_i != acc_m:
-                if acc_m:
-                    out.append(Verdict("violation", f"implementation raised {i.get('exc')}: {i.get('msg')} on a "
-                                       "request that passes the argument checks", i, m, None, tags, False))
-                else:
-                    out.append(Verdict("corr", "the implementation answers a request the model's checks reject",
-                                       i, m, None, tags, False))
+            elif not acc_i and acc_m:
+                out.append(raised_verdict({"alg": c["alg"], "opts": {}}, i, calls, tags))
+            elif acc_i and not acc_m:
+                out.append(Verdict("corr", "the implementation answers a request the model's checks reject",
+                                   i, m, None, tags, False))
             else:
                 out.append(Verdict("ok", "", None, None, None, tags + (["accept"] if acc_i else ["reject"]), acc_i))
         return out
+
+
+# ----------------------------------------------------------------------------
+# long runs over the whole option space, against the property recomputed with numpy (no model run)
+# ----------------------------------------------------------------------------
+def both_representations(X, rng):
+    """The same counts as a dense request and as a sparse one (stored order shuffled)."""
+    subs = [list(map(int, s)) for s in np.argwhere(X != 0)]
+    rng.shuffle(subs)
+    shape = [int(v) for v in X.shape]
+    return ({"shape": shape, "data": bd(X.flatten(order="F").tolist())},
+            {"shape": shape, "subs": subs, "vals": bd([float(X[tuple(q)]) for q in subs])})
+
+
+class LongRuns(Family):
+    """cp_apr run for 5..25 outer iterations (where the row sub-problems stall, the L-BFGS memory wraps and the
+    damping parameter has a history) on the same counts stored dense and sparse, over the whole option space; no
+    model run.  Checked: the call RETURNS (an admissible request is never answered with an exception; the fatal
+    L-BFGS assertion only where the reference bookkeeping on the row's own iterates is fatal too), everything the
+    property says about what is returned, recomputed with numpy, and that `precompinds` does not change a single bit
+    of the answer on sparse data (it selects how the same index sets are obtained)."""
+    name = "longruns"
+    theorems = ("C11_nonneg_returned", "C11_shape_rank", "C11_kkt_nonneg", "C11_kkt_length", "C11_iters_le",
+                "C11_objective_dense", "C11_objective_sparse", "C11_likelihood_not_worse")
+
+    def gen(self, rng, tier):
+        n = 54 if tier == "quick" else 300
+        out = []
+        for k in range(n):
+            N = rng.choice([2, 3, 3])
+            shape = [rng.randint(2, 5) for _ in range(N)]
+            R = rng.randint(1, 3)
+            rs = np_rng(rng)
+            lam = rng.choice([0.5, 3.0, 15.0])
+            if rng.random() < 0.5:
+                X = rs.poisson(lam, shape).astype(float)
+            else:
+                X = rs.poisson(full_np(np.full(R, lam * 2 ** N), [rs.uniform(0.05, 1.0, (q, R)) for q in shape])).astype(float)
+            if not X.any():
+                X[tuple(rng.randrange(q) for q in shape)] = rng.randint(1, 4)
+            tags = [f"rate{lam}"]
+            if rng.random() < 0.75:
+                init = {"weights": bd([1.0] * R), "factors": [bd(rs.uniform(0.1, 1.0, (q, R)).tolist()) for q in shape]}
+                tags.append("positive-guess")
+            else:
+                init, gt = gen_guess(rng, shape, R)
+                tags += gt
+            o = gen_opts(rng)
+            o["maxinneriters"] = rng.choice([10, 10, 20, 5])
+            o["stoptol"] = rng.choice([1e-4, 1e-4, 1e-6, 1e-7])
+            dense, sparse = both_representations(X, rng)
+            out.append({"alg": ("pqnr", "pdnr", "pqnr", "mu", "pqnr", "pdnr")[k % 6], "data": dense, "sdata": sparse, "rank": R,
+                        "init": init, "opts": o, "maxiters": rng.choice([5, 10, 10, 25]), "tags": tags})
+        return out
+
+    def evaluate(self, cases):
+        return [self.one(c) for c in cases]
+
+    def one(self, c):
+        alg, K = c["alg"], c["maxiters"]
+        o = c["opts"]
+        tags = [alg, f"N{len(c['data']['shape'])}", f"R{c['rank']}", f"maxiters{K}", f"inner{o['maxinneriters']}",
+                f"stoptol{o['stoptol']:g}"] + list(c.get("tags", []))
+        if alg != "mu":
+            tags.append(f"epsActive{o['epsActive']:g}")
+        if alg == "pdnr":
+            tags += [f"mu0{o['mu0']:g}", "inexact" if o["inexact"] else "exact"]
+        if alg == "pqnr":
+            tags.append(f"mem{o['lbfgsMem']}")
+        variants = [("dense", c["data"], o["precompinds"])]
+        variants += [("sparse", c["sdata"], True), ("sparse", c["sdata"], False)] if alg != "mu" else \
+            [("sparse", c["sdata"], o["precompinds"])]
+        got = {}
+        for rep, d, pre in variants:
+            cc = {**c, "data": d, "opts": {**o, "precompinds": pre}}
+            res, _, untouched, calls = run_impl(cc, K, record=(alg == "pqnr"), margins=False)
+            label = f" ({rep} data" + ("" if alg == "mu" else f", precompinds={pre}") + f", maxiters={K})"
+            if "ok" not in res:
+                return raised_verdict(cc, res, calls, tags + [rep], label)
+            what = property_violation(cc, K, res["ok"], untouched)
+            if what:
+                return Verdict("violation", what + label, res["ok"], None, None, tags + [rep])
+            got[(rep, pre)] = res["ok"]
+        if alg != "mu":
+            a, b = got[("sparse", True)], got[("sparse", False)]
+            for key in ("weights", "factors", "obj", "kkt", "nInner"):
+                if not (a[key] == b[key] or max_rel_diff(a[key], b[key]) == 0.0):
+                    return Verdict("violation", f"sparse data: precompinds=False changes what is returned ({key}: "
+                                   f"{b[key]!r} instead of {a[key]!r}), though it only selects how the index sets of "
+                                   "the rows are obtained", a, None, b, tags + ["precompinds"])
+        r = got[("dense", o["precompinds"])]
+        tags.append("converged" if len(r["kkt"]) < K else "limit")
+        return Verdict("ok", "", {"iters": len(r["kkt"]), "obj": r["obj"]}, None, None, tags, True)
+
+    def shrink(self, case):
+        if case["maxiters"] > 1:
+            yield {**case, "maxiters": case["maxiters"] // 2}
+            yield {**case, "maxiters": case["maxiters"] - 1}
+        o = case["opts"]
+        if o["maxinneriters"] > 1:
+            yield {**case, "opts": {**o, "maxinneriters": o["maxinneriters"] // 2}}
 
 
 class Formulas(Family):
@@ -1148,4 +1417,4 @@ class Formulas(Family):
 
 
 def families():
-    return [Runs(), Steps(), Validation(), Formulas()]
+    return [Runs(), Steps(), Validation(), LongRuns(), Formulas()]
